@@ -68,7 +68,7 @@ macro_rules! impl_integer {
             }
         
             fn is_unit(&self) -> bool {
-                self.is_one() || (-self).is_one()
+                self.is_one() || self == &-Self::one()
             }
         
             fn normalizing_unit(&self) -> Self {
